@@ -991,6 +991,135 @@ theorem xparse_the_reading (P : XPrec) (U : Unamb P) (ts : List XTok) (x y : X) 
 #print axioms xparse_sound
 #print axioms xparse_the_reading
 
+/-! #### Completeness of the executable reader: `xparse` decides the reading relation
+
+Same technique and fuel bound as A1's `parse_complete`: a derivation over `n` tokens is found by `xparseExpr` with fuel
+`2·n + 2`; `xparse` runs with `4·n + 8`.  Together with `xparse_sound` the function and the declarative relation coincide, so
+the uniqueness of the reading is a theorem about the grammar relation (`xreads_unique`), not a by-product of the reader
+being a function. -/
+
+mutual
+theorem xcompE {P : XPrec} {m ts e r} (h : XExpr P m ts e r) :
+    r.length < ts.length ∧ ∀ f, 2 * ts.length + 2 ≤ f + 2 * r.length → xparseExpr P f m ts = some (e, r) := by
+  match h with
+  | .mk hp hl =>
+    obtain ⟨l1, ihp⟩ := xcompP hp
+    obtain ⟨l2, ihl⟩ := xcompL hl
+    refine ⟨by omega, fun f hf => ?_⟩
+    obtain ⟨f', rfl⟩ : ∃ f', f = f' + 1 := ⟨f - 1, by omega⟩
+    simp only [xparseExpr, ihp f' (by omega)]
+    exact ihl f' (by omega)
+  termination_by structural h
+theorem xcompL {P : XPrec} {m acc ts e r} (h : XLoop P m acc ts e r) :
+    r.length ≤ ts.length ∧ ∀ f, 2 * ts.length + 1 ≤ f + 2 * r.length → xparseLoop P f m acc ts = some (e, r) := by
+  match h with
+  | .stop hs =>
+    refine ⟨Nat.le_refl _, fun f hf => ?_⟩
+    obtain ⟨f', rfl⟩ : ∃ f', f = f' + 1 := ⟨f - 1, by omega⟩
+    cases ts with
+    | nil => simp [xparseLoop]
+    | cons t rest =>
+      cases t <;> simp_all [xparseLoop, xstops]
+      all_goals first | omega | (intro h0; omega)
+  | .step hb he hl =>
+    obtain ⟨l1, ihe⟩ := xcompE he
+    obtain ⟨l2, ihl⟩ := xcompL hl
+    simp only [List.length_cons] at *
+    refine ⟨by omega, fun f hf => ?_⟩
+    obtain ⟨f', rfl⟩ : ∃ f', f = f' + 1 := ⟨f - 1, by omega⟩
+    simp only [xparseLoop, hb, if_true, ihe f' (by omega)]
+    exact ihl f' (by omega)
+  termination_by structural h
+theorem xcompP {P : XPrec} {m ts e r} (h : XPre P m ts e r) :
+    r.length < ts.length ∧ ∀ f, 2 * ts.length + 1 ≤ f + 2 * r.length → xparsePre P f m ts = some (e, r) := by
+  match h with
+  | .neg hm he =>
+    obtain ⟨l1, ihe⟩ := xcompE he
+    simp only [List.length_cons] at *
+    refine ⟨by omega, fun f hf => ?_⟩
+    obtain ⟨f', rfl⟩ : ∃ f', f = f' + 1 := ⟨f - 1, by omega⟩
+    simp only [xparsePre, hm, if_true, ihe f' (by omega)]
+  | .num =>
+    simp only [List.length_cons]
+    refine ⟨by omega, fun f hf => ?_⟩
+    obtain ⟨f', rfl⟩ : ∃ f', f = f' + 1 := ⟨f - 1, by omega⟩
+    simp only [xparsePre]
+  | .id =>
+    simp only [List.length_cons]
+    refine ⟨by omega, fun f hf => ?_⟩
+    obtain ⟨f', rfl⟩ : ∃ f', f = f' + 1 := ⟨f - 1, by omega⟩
+    simp only [xparsePre]
+  | .paren he =>
+    obtain ⟨l1, ihe⟩ := xcompE he
+    simp only [List.length_cons] at *
+    refine ⟨by omega, fun f hf => ?_⟩
+    obtain ⟨f', rfl⟩ : ∃ f', f = f' + 1 := ⟨f - 1, by omega⟩
+    simp only [xparsePre, ihe f' (by omega)]
+  | .notp he =>
+    obtain ⟨l1, ihe⟩ := xcompE he
+    simp only [List.length_cons] at *
+    refine ⟨by omega, fun f hf => ?_⟩
+    obtain ⟨f', rfl⟩ : ∃ f', f = f' + 1 := ⟨f - 1, by omega⟩
+    simp only [xparsePre, ihe f' (by omega)]
+  | .ite hc ha hb =>
+    obtain ⟨l1, ihc⟩ := xcompE hc
+    obtain ⟨l2, iha⟩ := xcompE ha
+    obtain ⟨l3, ihb⟩ := xcompE hb
+    simp only [List.length_cons] at *
+    refine ⟨by omega, fun f hf => ?_⟩
+    obtain ⟨f', rfl⟩ : ∃ f', f = f' + 1 := ⟨f - 1, by omega⟩
+    simp only [xparsePre, if_true, ihc f' (by omega), iha f' (by omega), ihb f' (by omega)]
+  | .call ha =>
+    obtain ⟨l1, iha⟩ := xcompA ha
+    simp only [List.length_cons] at *
+    refine ⟨by omega, fun f hf => ?_⟩
+    obtain ⟨f', rfl⟩ : ∃ f', f = f' + 1 := ⟨f - 1, by omega⟩
+    simp only [xparsePre, iha f' (by omega)]
+  | .call0 (ts := ts0) hn =>
+    simp only [List.length_cons]
+    refine ⟨by omega, fun f hf => ?_⟩
+    obtain ⟨f', rfl⟩ : ∃ f', f = f' + 1 := ⟨f - 1, by omega⟩
+    cases ts0 with
+    | nil => simp [xparsePre]
+    | cons t r0 => cases t <;> simp_all [xparsePre, noLp]
+  termination_by structural h
+theorem xcompA {P : XPrec} {ts es r} (h : XArgs P ts es r) :
+    r.length < ts.length ∧ ∀ f, 2 * ts.length + 1 ≤ f + 2 * r.length → xparseArgs P f ts = some (es, r) := by
+  match h with
+  | .last he =>
+    obtain ⟨l1, ihe⟩ := xcompE he
+    simp only [List.length_cons] at *
+    refine ⟨by omega, fun f hf => ?_⟩
+    obtain ⟨f', rfl⟩ : ∃ f', f = f' + 1 := ⟨f - 1, by omega⟩
+    simp only [xparseArgs, ihe f' (by omega)]
+  | .more he hr =>
+    obtain ⟨l1, ihe⟩ := xcompE he
+    obtain ⟨l2, ihr⟩ := xcompA hr
+    simp only [List.length_cons] at *
+    refine ⟨by omega, fun f hf => ?_⟩
+    obtain ⟨f', rfl⟩ : ∃ f', f = f' + 1 := ⟨f - 1, by omega⟩
+    simp only [xparseArgs, ihe f' (by omega), ihr f' (by omega)]
+  termination_by structural h
+end
+
+/-- **Completeness of the executable XMILE reader.** -/
+theorem xparse_complete (P : XPrec) (ts : List XTok) (x : X) (h : XReads P ts x) : xparse P ts = some x := by
+  unfold xparse
+  rw [(xcompE h).2 (4 * ts.length + 8) (by simp; omega)]
+
+/-- the executable reader decides the declarative reading relation -/
+theorem xparse_iff (P : XPrec) (ts : List XTok) (x : X) : xparse P ts = some x ↔ XReads P ts x :=
+  ⟨xparse_sound P ts x, xparse_complete P ts x⟩
+
+/-- hence: on the tokens of ANY well-levelled tree the reader succeeds and returns that tree -/
+theorem xparse_flat (P : XPrec) (U : Unamb P) (x : X) (hw : XWL P x = true) : xparse P (flat x) = some (canon x) := by
+  have r := xwl_reads P U (canon x) (by rw [xwl_canon]; exact hw) (noNnum_canon x)
+  rw [flat_canon] at r
+  exact xparse_complete P _ _ r
+
+#print axioms xparse_complete
+#print axioms xparse_flat
+
 /-! ### The token sequence determines the emitted text
 
 `flat ir = flat x → gen ir = gen x` for trees whose IFs stand in sentence positions: the generator is
@@ -1525,6 +1654,102 @@ theorem evalL_transL (c : Cfg) (P : XPrec) (hS : shapesOK c = true) (C : Carrier
     simp only [transL, evalL, xevalL]
     rw [eval_trans c P hS C e init, evalL_transL c P hS C es init]
 end
+
+
+/-! ### The literal-sign fact: `-n ^ e`
+
+The PEG reads a `-` directly before a number as part of the literal, so the IR of `-n ^ e` is `^(-n, e)`; XMILE's table
+puts `^` above unary minus, so the reading is `-(n ^ e)`.  The generator prints the IR flat — `-n ** e` — and CPython reads
+that text as `-(n ** e)` as well: the flat rendering is right although the IR is not the reading.  Printing the literal as
+`(-n)` (seeded defect `C03r3-negative-literal-parens`) makes the text denote `(-n) ** e`. -/
+
+/-- integers with `**`, for the value witnesses: `"2.0"` is 2 -/
+def signCarrier : Carrier Int where
+  num s := if s = "2.0" then 2 else 0
+  name _ := 0
+  str _ := 0
+  neg a := -a
+  not _ := 0
+  bin k a b := match k with
+    | .pow => a ^ b.toNat
+    | _ => 0
+  ite a _ _ := a
+  attr a _ := a
+  call a _ := a
+  index a _ := a
+  list _ := 0
+  kw _ a := a
+
+section
+variable (c : Cfg) (hO : opOK c xmilePrec = true) (n e : String)
+include hO
+
+/-- **`-n ^ e`, all n and e.** (1) the token sequence `- n ^ e` has exactly one XMILE reading, `-(n ^ e)`, and the executable
+reader returns it; (2) the IR the PEG builds, `^(-n, e)`, has the same tokens but is NOT well-levelled (a signed literal is an
+operand of unary-minus level, `^` demands a primary base); (3) the generator prints that IR flat, `-n ** e`, which CPython
+parses — uniquely — to `-(n ** e)`, the image of the reading; (4) so in every arithmetic the emitted text has the XMILE value
+`neg (pow n e)`. -/
+theorem signed_base_pow (init : Bool) :
+    let ts : List XTok := [.op .sub, .num n, .op .pow, .num e]
+    let ir : X := .bin .pow (.nnum n) (.num e)
+    let x : X := .neg (.bin .pow (.num n) (.num e))
+    (XReads xmilePrec ts x ∧ (∀ y, XReads xmilePrec ts y → y = x) ∧ xparse xmilePrec ts = some x) ∧
+    (flat ir = ts ∧ XWL xmilePrec ir = false ∧ XWL xmilePrec x = true) ∧
+    (gen c init ir = [Tok.op .sub, Tok.num n, Tok.op .pow, Tok.num e] ∧
+      Parses (gen c init ir) (trans c xmilePrec init x) ∧
+      (∀ p, Parses (gen c init ir) p → p = .neg (.bin .pow (.num n) (.num e)))) ∧
+    (∀ (α : Type) (C : Carrier α) (ρ : Nat → α) (p : Py), parse (gen c init ir) = some p →
+      eval C ρ p = C.neg (C.bin .pow (C.num n) (C.num e))) := by
+  intro ts ir x
+  have hx : XWL xmilePrec x = true := by simp [x, XWL, xlvl, xmilePrec]
+  have hr : XReads xmilePrec ts x := by
+    have := xwl_reads xmilePrec xmile_unamb x hx (by simp [x, noNnum])
+    simpa [x, flat, ts] using this
+  have hg : gen c init ir = [Tok.op .sub, Tok.num n, Tok.op .pow, Tok.num e] := by
+    have ho := opOK_op c xmilePrec hO .pow
+    simp [ir, gen, ho, substToks, sel2, xmilePrec]
+  have hp : Parses [Tok.op .sub, Tok.num n, Tok.op .pow, Tok.num e] (.neg (.bin .pow (.num n) (.num e))) := by
+    have hw : WLb 0 (Py.neg (Py.bin .pow (Py.num n) (Py.num e))) = true := by
+      simp [WLb, lvlH, lvl, Py.ldem, Py.rbp, Py.bp]
+    have := parse_print (Py.neg (Py.bin .pow (Py.num n) (Py.num e))) hw
+    simpa [pr] using this
+  refine ⟨⟨hr, fun y hy => xreads_unique xmilePrec ts y x hy hr, xparse_complete xmilePrec ts x hr⟩,
+    ⟨by simp [ir, flat, ts], by simp [ir, XWL, xlvl, xmilePrec], hx⟩, ⟨hg, ?_, ?_⟩, ?_⟩
+  · rw [hg]; simpa [x, trans, xmilePrec] using hp
+  · intro p hpp; rw [hg] at hpp; exact parses_unique _ _ _ hpp hp
+  · intro α C ρ p hpp
+    rw [hg] at hpp
+    have := parses_unique _ _ _ (parse_sound _ _ hpp) hp
+    subst this
+    simp [eval]
+
+end
+
+/-- **the other way: `(-n) ** e` is wrong.** The text with the literal in parentheses parses — uniquely — to `(-n) ** e`, whose
+value is `pow (neg n) e`; on the integers with n = e = 2 the flat text gives −4 (the XMILE value of `-2 ^ 2`) and the
+parenthesised text gives +4. -/
+theorem signed_base_pow_paren_wrong (n e : String) :
+    let bad : List Tok := [Tok.lp, Tok.op .sub, Tok.num n, Tok.rp, Tok.op .pow, Tok.num e]
+    Parses bad (.bin .pow (.paren (.neg (.num n))) (.num e)) ∧
+    (∀ p, Parses bad p → p = .bin .pow (.paren (.neg (.num n))) (.num e)) ∧
+    (∀ (α : Type) (C : Carrier α) (ρ : Nat → α) (p : Py), parse bad = some p →
+      eval C ρ p = C.bin .pow (C.neg (C.num n)) (C.num e)) ∧
+    eval signCarrier (fun _ => 0) (.neg (.bin .pow (.num "2.0") (.num "2.0"))) = -4 ∧
+    eval signCarrier (fun _ => 0) (.bin .pow (.paren (.neg (.num "2.0"))) (.num "2.0")) = 4 := by
+  intro bad
+  have hp : Parses bad (.bin .pow (.paren (.neg (.num n))) (.num e)) := by
+    have hw : WLb 0 (Py.bin .pow (Py.paren (Py.neg (Py.num n))) (Py.num e)) = true := by
+      simp [WLb, lvlH, lvl, Py.ldem, Py.rbp, Py.bp]
+    have := parse_print (Py.bin .pow (Py.paren (Py.neg (Py.num n))) (Py.num e)) hw
+    simpa [pr, bad] using this
+  refine ⟨hp, fun p hpp => parses_unique _ _ _ hpp hp, ?_, by decide, by decide⟩
+  intro α C ρ p hpp
+  have := parses_unique _ _ _ (parse_sound _ _ hpp) hp
+  subst this
+  simp [eval]
+
+#print axioms signed_base_pow
+#print axioms signed_base_pow_paren_wrong
 
 /-! ### Per program: what a successful validation means -/
 
